@@ -13,6 +13,20 @@ from harness import common
 from harness.common import Collector
 from harness import taint_gen as tg
 
+def _cleaning(fn):
+    """shard functions run in pool workers that are terminated, not exited: remove the scratch directory here"""
+    import functools
+
+    @functools.wraps(fn)
+    def wrapper(arg):
+        try:
+            return fn(arg)
+        finally:
+            from harness import lianrun
+            lianrun.cleanup_scratch()
+    return wrapper
+
+
 ID = "C11"
 
 RULE = ("the C10 chain projects (1-3 files, <= 3 source and <= 3 sink sites, all rule kinds) with half of the chains ending "
@@ -361,6 +375,7 @@ def slim(case):
 # ---------------------------------------------------------------------------------------------
 # shards
 
+@_cleaning
 def random_shard(arg):
     seed, n_examples, avoid, uniq = arg
     import hypothesis
@@ -413,6 +428,7 @@ def random_shard(arg):
 FIXED_CASES = None
 
 
+@_cleaning
 def from_code_shard(arg):
     """thorough tier: shipped *_from_code.yaml kept; a sink whose designated operand is clean, placed on the line
     number of a shipped from-code sink rule of an unrelated project."""
@@ -494,6 +510,7 @@ def replay(path):
     return rc
 
 
+@_cleaning
 def replay_shard(paths):
     col = Collector()
     for path in paths:
@@ -521,6 +538,7 @@ def calibrated_avoid():
     return failed
 
 
+@_cleaning
 def calib_shard(_):
     col = Collector()
     col.notes.append("failed-kinds:" + json.dumps(sorted(calibrated_avoid())))
